@@ -32,7 +32,7 @@ from ..ref import folds as ref
 PROPERTY = 'C14'
 LEVEL = 'exploration'
 
-SYM = {'a': 2, 'b': -3, 'h': 0.5, '_': None, 'x': 'x'}
+SYM = {'a': 2, 'b': -3, 'h': 0.5, '_': None, 'x': 'x', 'z': 0}
 EXTRA = 4                       # the extra literal number argument
 COLS = 'ABCDEFGHIJ'
 PROBE_COL = 'M'
@@ -58,6 +58,8 @@ BOUNDS = {
                                      '(15625 fills each)',
         'all split decompositions (per-cell ones in one argument order) x 6 '
         'functions': '2x3 and 3x2 over {-3,blank,"x"}',
+        'all decompositions over {2,0,blank,"x"}': 'rectangles up to 2x2/1x3 '
+                                                   '(zero is not empty)',
         'SUMPRODUCT equal shapes': 'pairs up to 2x2 over {2,-3,blank}, '
                                    'triples of 1x2/2x1',
         'SUMPRODUCT different shapes': 'all ordered pairs of 1x1,1x2,2x1,2x2,'
@@ -438,6 +440,8 @@ def families(tier):
     if tier == 'quick':
         for s in SMALL:
             fam.append(('agg', s, 'abh_x', 'all', 40))
+            # zero is a number, not an empty cell
+            fam.append(('agg', s, 'az_x', 'all', 40))
         for s in SIX:
             fam.append(('agg', s, 'abh_x', 'whole', 500))
             fam.append(('agg', s, 'b_x', 'splits1', 12))
@@ -450,6 +454,10 @@ def families(tier):
     else:
         for s in SMALL + SIX:
             fam.append(('agg', s, 'abh_x', 'all', 25))
+        for s in SMALL:
+            fam.append(('agg', s, 'az_x', 'all', 40))
+        for s in SIX:
+            fam.append(('agg', s, 'az_', 'whole', 500))
         fam.append(('agg', (3, 3), 'ab_x', 'whole2cuts', 200))
         for s in SP_SHAPES_Q:
             fam.append(('sp', (s, s), 'ab_x', None, 600))
